@@ -131,14 +131,16 @@ type World struct {
 	sqlUnsupported      string // first statement the interpreter could not handle (the run is then inconclusive)
 	sqlUnsupportedTaint string
 	parkSeq             int
-	ddlSeen             bool // the real bucket.AddLedger ran: triggers fire as registered, not as the features say
+	ddlSeen             bool           // the real bucket.AddLedger ran: triggers fire as registered, not as the features say
 	stalledUntil        map[string]int // task key -> scheduler step until which it is passed over
-	recordYields        bool // fault enumeration: remember every yield that admits a fault
+	recordYields        bool           // fault enumeration: remember every yield that admits a fault
 	yields              []YieldSite
-	victims             map[string]int // op id -> how often one of its statements was the victim of an organic deadlock
-	victimTraceIdx      map[string]int // op id -> length of the step trace when it was last a victim
-	lenientReads        bool           // see unmodelled
-	sites               [][3]string    // (task, store call, fault fired or "") for every step at a yield that admits faults
+	victims             map[string]int    // op id -> how often one of its statements was the victim of an organic deadlock
+	victimTraceIdx      map[string]int    // op id -> length of the step trace when it was last a victim
+	refusals            map[string]string // task -> the feature refusal the storage layer raised for its read
+	misreads            []FeatureMisread  // read statements that need a feature the ledger has disabled (auditRead)
+	lenientReads        bool              // see unmodelled
+	sites               [][3]string       // (task, store call, fault fired or "") for every step at a yield that admits faults
 	mu                  sync.Mutex
 	db                  *DB
 	eventCtr            uint64
@@ -326,6 +328,10 @@ func (w *World) park(ctx context.Context, op, note string, cond func() bool, loc
 }
 
 func (w *World) parkX(ctx context.Context, op, note string, cond func() bool, lockWait, inDriver bool, kinds []FaultKind) *Fault {
+	if ctx.Value(sysSQLKey) != nil && !lockWait {
+		// a caller that must not park here (it holds a mutex of the system under test)
+		return nil
+	}
 	w.mu.Lock()
 	if !w.scheduling {
 		w.mu.Unlock()
